@@ -563,6 +563,21 @@ def token_data_rule(db, rule):
                     if v >= 2 ** bits:
                         raise SignedOverflow('%s("%s"): the value is not representable in the return type (undefined behaviour)' % (callee, digits.decode()))
                     return v
+                if callee in ('std::stoi', 'std::stol', 'std::stoll', 'std::stoul') and n.get('args'):
+                    s_ = bytes(it.eval(fn, fn.stmts[n['args'][0]], env)).decode('ascii', 'replace')
+                    digits = ''
+                    for ch in s_.lstrip():
+                        if ch.isdigit() or (ch in '+-' and not digits):
+                            digits += ch
+                        else:
+                            break
+                    if not digits.strip('+-'):
+                        raise SignedOverflow('%s("%s") throws std::invalid_argument' % (callee, s_))
+                    v = int(digits)
+                    lim = 2 ** 31 if callee == 'std::stoi' else 2 ** 63
+                    if not (-lim <= v < lim):
+                        raise SignedOverflow('%s("%s") throws std::out_of_range: an exception escapes the lexer' % (callee, s_))
+                    return v
                 if last == 'c_str' and 'obj' in n:
                     o = it.eval(fn, fn.stmts[n['obj']], env)
                     return ('sptr', bytes(o), 0)
